@@ -1,6 +1,828 @@
-//! C11 — not implemented yet.
-use mc_core::Ctx;
+//! C11 — no transaction can crash the engine.
+//!
+//! Targets: every function and method of every native blueprint, read from the package definitions stored in the
+//! genesis database (`get_package_blueprint_definitions` + the package's own Scrypto schemas). For each entry point
+//! that a manifest can address (functions; methods of global receivers instantiated once in the base state; module
+//! methods; direct-access vault methods; bucket / proof methods through a forwarding probe) the harness
+//!   (a) finds a default argument tuple automatically (schema-directed, tried under a list of generation contexts —
+//!       which resource the buckets / addresses use, `Some` vs `None` — until one commits successfully) and executes
+//!       every tuple that differs from it in ≤ 1 node position (thorough: ≤ 2 for small entry points), each node over
+//!       its schema-directed alphabet (sgen.rs);
+//!   (b) executes every single-point mutation (`mc_core::gen::mutations`, quick 12-byte alphabet) of the default's
+//!       manifest-SBOR bytes that still decodes as a manifest value, through a raw call instruction;
+//!   (c) repeats (a) — thorough: also (b) — from two non-initial states.
+//! Oracle: the execution returns a receipt (no panic escapes `catch_unwind`) and the receipt's error, if any, is not a
+//! trapped native panic (`VmError::Native(NativeRuntimeError::Trap)`) nor `SystemError::SystemPanic`.
+//! Transactions are executed without committing (`execute_transaction_no_commit` on the worker's copy of the state,
+//! fixed nonce), so every input sees exactly the same state and the run is deterministic.
+use crate::sgen::*;
+use crate::world::*;
+use mc_core::{par_for, par_map, Ctx, Level, Local};
+use mc_ledger::*;
+use radix_engine::errors::{NativeRuntimeError, RuntimeError, SystemError, VmError};
+use radix_transactions::manifest::*;
+use serde_json::{json, Map, Value};
+use std::collections::{BTreeMap, BTreeSet};
 
-pub fn run(_ctx: Ctx) -> ! {
-    mc_core::machinery_error("C11: not implemented")
+const NATIVE_PACKAGES: &[(&str, PackageAddress)] = &[
+    ("package", PACKAGE_PACKAGE),
+    ("resource", RESOURCE_PACKAGE),
+    ("account", ACCOUNT_PACKAGE),
+    ("identity", IDENTITY_PACKAGE),
+    ("consensus_manager", CONSENSUS_MANAGER_PACKAGE),
+    ("access_controller", ACCESS_CONTROLLER_PACKAGE),
+    ("pool", POOL_PACKAGE),
+    ("transaction_processor", TRANSACTION_PROCESSOR_PACKAGE),
+    ("metadata", METADATA_MODULE_PACKAGE),
+    ("royalty", ROYALTY_MODULE_PACKAGE),
+    ("role_assignment", ROLE_ASSIGNMENT_MODULE_PACKAGE),
+    ("transaction_tracker", TRANSACTION_TRACKER_PACKAGE),
+    ("locker", LOCKER_PACKAGE),
+];
+
+#[derive(Clone, Copy, Debug, PartialEq, Eq, PartialOrd, Ord)]
+enum CallKind {
+    Function,
+    Method,
+    Royalty,
+    Metadata,
+    RoleAssignment,
+    DirectVault,
+    /// method of a bucket / proof created by the preamble, called by the forwarding probe with a raw Scrypto payload
+    FwdBucket,
+    FwdProof,
+}
+
+#[derive(Clone, Debug)]
+struct Target {
+    pkg: PackageAddress,
+    bp: String,
+    ident: String,
+    kind: CallKind,
+    receiver: Option<NodeId>,
+    receiver_label: String,
+    schema_hash: SchemaHash,
+    type_id: LocalTypeId,
+}
+
+impl Target {
+    fn label(&self) -> String {
+        match self.kind {
+            CallKind::Function => format!("{}::{}", self.bp, self.ident),
+            _ => format!("{}.{}@{}", self.bp, self.ident, self.receiver_label),
+        }
+    }
+    fn call(&self, args: ManifestValue) -> InstructionV1 {
+        let name = self.ident.clone();
+        let ga = || ManifestGlobalAddress::Static(GlobalAddress::new_or_panic(self.receiver.unwrap().0));
+        match self.kind {
+            CallKind::Function => {
+                InstructionV1::CallFunction(CallFunction { package_address: ManifestPackageAddress::Static(self.pkg), blueprint_name: self.bp.clone(), function_name: name, args })
+            }
+            CallKind::Method => InstructionV1::CallMethod(CallMethod { address: ga(), method_name: name, args }),
+            CallKind::Royalty => InstructionV1::CallRoyaltyMethod(CallRoyaltyMethod { address: ga(), method_name: name, args }),
+            CallKind::Metadata => InstructionV1::CallMetadataMethod(CallMetadataMethod { address: ga(), method_name: name, args }),
+            CallKind::RoleAssignment => InstructionV1::CallRoleAssignmentMethod(CallRoleAssignmentMethod { address: ga(), method_name: name, args }),
+            CallKind::DirectVault => {
+                InstructionV1::CallDirectVaultMethod(CallDirectVaultMethod { address: InternalAddress::new_or_panic(self.receiver.unwrap().0), method_name: name, args })
+            }
+            CallKind::FwdBucket | CallKind::FwdProof => unreachable!("forwarded calls are built by build_call"),
+        }
+    }
+    fn is_fwd(&self) -> bool {
+        matches!(self.kind, CallKind::FwdBucket | CallKind::FwdProof)
+    }
+    /// the receiver object of a forwarded call
+    fn fwd_receiver(&self, w: &W11) -> G {
+        match (self.kind, self.bp.as_str()) {
+            (CallKind::FwdBucket, "NonFungibleBucket") => G::Bucket(BSpec::Ids(w.nfall, vec![2, 3])),
+            (CallKind::FwdBucket, _) => G::Bucket(BSpec::Amount(w.fall, dec!(2))),
+            (_, "NonFungibleProof") => G::Proof(PSpec::Ids(w.nfall, vec![2, 3])),
+            _ => G::Proof(PSpec::Amount(w.fall, dec!(2))),
+        }
+    }
+}
+
+/// Preamble + call instruction + what to print for one input. None: the input cannot be encoded.
+fn build_call(w: &W11, t: &Target, dflt: (ResourceAddress, Decimal), default_tree: &G, input: &Input) -> Option<(Vec<InstructionV1>, InstructionV1, String, String)> {
+    if t.is_fwd() {
+        let bytes = match input {
+            Input::Tree(g) => scrypto_encode(&g2s(g)).ok()?,
+            Input::Bytes(b) => b.clone(),
+        };
+        let outer = G::Tuple(vec![t.fwd_receiver(w), G::V(ManifestValue::String { value: t.ident.clone() }), G::V(to_mv(&bytes))]);
+        let low = lower(&outer, w.w.a.addr, dflt);
+        let call = InstructionV1::CallFunction(CallFunction { package_address: ManifestPackageAddress::Static(w.fwd_pkg), blueprint_name: FWD_BP.to_string(), function_name: "fwd".into(), args: low.value });
+        let shown = scrypto_decode::<ScryptoValue>(&bytes).map(|v| format!("{v:?}")).unwrap_or_else(|_| "(not SBOR)".into());
+        Some((low.preamble, call, shown, mc_core::hex(&bytes)))
+    } else {
+        let (pre, v) = match input {
+            Input::Tree(g) => {
+                let low = lower(g, w.w.a.addr, dflt);
+                (low.preamble, low.value)
+            }
+            Input::Bytes(b) => (lower(default_tree, w.w.a.addr, dflt).preamble, manifest_decode::<ManifestValue>(b).ok()?),
+        };
+        let enc = encodable(&v)?;
+        Some((pre, t.call(v.clone()), format!("{v:?}"), mc_core::hex(&enc)))
+    }
+}
+
+/// receivers per blueprint name: (label, node, call kind)
+fn receivers(w: &W11) -> BTreeMap<&'static str, Vec<(&'static str, NodeId, CallKind)>> {
+    let g = |a: GlobalAddress| *a.as_node_id();
+    let mut m: BTreeMap<&'static str, Vec<(&'static str, NodeId, CallKind)>> = BTreeMap::new();
+    use CallKind::*;
+    m.insert("FungibleResourceManager", vec![("fall", g(w.fall.into()), Method), ("xrd", g(XRD.into()), Method)]);
+    m.insert("NonFungibleResourceManager", vec![("nfall", g(w.nfall.into()), Method), ("nf", g(w.w.nf.into()), Method)]);
+    m.insert("FungibleVault", vec![("vault_fall_of_B", *w.vault_f.as_node_id(), DirectVault)]);
+    m.insert("NonFungibleVault", vec![("vault_nfall_of_B", *w.vault_nf.as_node_id(), DirectVault)]);
+    m.insert("Account", vec![("A", g(w.w.a.addr.into()), Method)]);
+    m.insert("Identity", vec![("identity", g(w.identity.into()), Method)]);
+    m.insert("Validator", vec![("own_validator", g(w.own_validator.into()), Method), ("genesis_validator", g(w.x.validator.into()), Method)]);
+    m.insert("ConsensusManager", vec![("consensus_manager", g(CONSENSUS_MANAGER.into()), Method)]);
+    m.insert("AccessController", vec![("access_controller", g(w.ac.into()), Method)]);
+    m.insert("OneResourcePool", vec![("pool1", g(w.x.pool.into()), Method)]);
+    m.insert("TwoResourcePool", vec![("pool2", g(w.pool2.into()), Method)]);
+    m.insert("MultiResourcePool", vec![("poolm", g(w.poolm.into()), Method)]);
+    m.insert("AccountLocker", vec![("locker", g(w.locker.into()), Method)]);
+    m.insert("Package", vec![("wat_package", g(w.wat_pkg.into()), Method)]);
+    m.insert("Metadata", vec![("fall", g(w.fall.into()), Metadata), ("A", g(w.w.a.addr.into()), Metadata)]);
+    m.insert("RoleAssignment", vec![("fall", g(w.fall.into()), RoleAssignment), ("royalty_comp", g(w.royalty_comp.into()), RoleAssignment)]);
+    m.insert("ComponentRoyalty", vec![("royalty_comp", g(w.royalty_comp.into()), Royalty), ("faucet", g(FAUCET.into()), Royalty)]);
+    m.insert("TransactionTracker", vec![("transaction_tracker", g(TRANSACTION_TRACKER.into()), Method)]);
+    m
+}
+
+struct Discovery {
+    targets: Vec<Target>,
+    schemas: BTreeMap<(PackageAddress, SchemaHash), VersionedScryptoSchema>,
+    /// (blueprint, ident, why)
+    not_driven: Vec<(String, String, String)>,
+    entry_points: usize,
+    blueprints: BTreeSet<String>,
+}
+
+fn discover(sim: &FSim, w: &W11) -> Discovery {
+    let recv = receivers(w);
+    let mut d = Discovery { targets: vec![], schemas: BTreeMap::new(), not_driven: vec![], entry_points: 0, blueprints: BTreeSet::new() };
+    for (_, pkg) in NATIVE_PACKAGES {
+        let defs = sim.get_package_blueprint_definitions(pkg);
+        if defs.is_empty() {
+            mc_core::machinery_error(&format!("C11: native package {pkg:?} has no blueprint definitions in the genesis database"));
+        }
+        for (h, s) in sim.get_package_radix_blueprint_schema_inits(pkg) {
+            d.schemas.insert((*pkg, h), s);
+        }
+        let mut defs: Vec<_> = defs.into_iter().collect();
+        defs.sort_by(|a, b| a.0.blueprint.cmp(&b.0.blueprint));
+        for (key, def) in defs {
+            let bp = key.blueprint.clone();
+            d.blueprints.insert(bp.clone());
+            let mut fns: Vec<_> = def.interface.functions.iter().collect();
+            fns.sort_by(|a, b| a.0.cmp(b.0));
+            for (ident, fs) in fns {
+                d.entry_points += 1;
+                let (schema_hash, type_id) = match &fs.input {
+                    BlueprintPayloadDef::Static(ScopedTypeId(h, t)) => (*h, *t),
+                    BlueprintPayloadDef::Generic(_) => {
+                        d.not_driven.push((bp.clone(), ident.clone(), "generic input type".into()));
+                        continue;
+                    }
+                };
+                match &fs.receiver {
+                    None => d.targets.push(Target { pkg: *pkg, bp: bp.clone(), ident: ident.clone(), kind: CallKind::Function, receiver: None, receiver_label: String::new(), schema_hash, type_id }),
+                    Some(_info) if matches!(bp.as_str(), "FungibleBucket" | "NonFungibleBucket" | "FungibleProof" | "NonFungibleProof") => {
+                        let kind = if bp.ends_with("Bucket") { CallKind::FwdBucket } else { CallKind::FwdProof };
+                        d.targets.push(Target { pkg: *pkg, bp: bp.clone(), ident: ident.clone(), kind, receiver: None, receiver_label: "via-forwarding-probe".into(), schema_hash, type_id });
+                    }
+                    Some(_info) => match recv.get(bp.as_str()) {
+                        Some(rs) => {
+                            for (label, node, kind) in rs {
+                                d.targets.push(Target { pkg: *pkg, bp: bp.clone(), ident: ident.clone(), kind: *kind, receiver: Some(*node), receiver_label: label.to_string(), schema_hash, type_id });
+                            }
+                        }
+                        None => d.not_driven.push((bp.clone(), ident.clone(), "internal object: no receiver addressable from a manifest call instruction (reached only through typed manifest instructions)".into())),
+                    },
+                }
+            }
+        }
+    }
+    d
+}
+
+// ------------------------------------------------------------------------------------------------
+// execution and oracle
+// ------------------------------------------------------------------------------------------------
+
+const NONCE: u32 = 777_777;
+
+#[derive(Clone, Copy, Debug, PartialEq, Eq, PartialOrd, Ord)]
+enum Role {
+    User,
+    System,
+}
+
+fn proofs_of(w: &W11, role: Role) -> BTreeSet<NonFungibleGlobalId> {
+    let mut p: BTreeSet<NonFungibleGlobalId> = w.user_proofs.iter().cloned().collect();
+    if role == Role::System {
+        p.extend(w.system_proofs.iter().cloned());
+    }
+    p
+}
+
+fn full_manifest(w: &W11, preamble: &[InstructionV1], call: InstructionV1) -> TransactionManifestV1 {
+    let a = w.w.a.addr;
+    let mut ins: Vec<InstructionV1> = Vec::with_capacity(preamble.len() + 3);
+    ins.push(InstructionV1::CallMethod(CallMethod { address: ManifestGlobalAddress::Static(a.into()), method_name: "lock_fee".into(), args: to_mv(&(dec!(500),)) }));
+    ins.extend(preamble.iter().cloned());
+    ins.push(call);
+    ins.push(InstructionV1::CallMethod(CallMethod {
+        address: ManifestGlobalAddress::Static(a.into()),
+        method_name: "deposit_batch".into(),
+        args: ManifestValue::Tuple { fields: vec![ManifestValue::Custom { value: ManifestCustomValue::Expression(ManifestExpression::EntireWorktop) }] },
+    }));
+    TransactionManifestV1 { instructions: ins, blobs: Default::default(), object_names: Default::default() }
+}
+
+fn exec_cfg_c11() -> ExecutionConfig {
+    let mut cfg = ExecutionConfig::for_test_transaction();
+    cfg.enable_cost_breakdown = false;
+    cfg
+}
+
+enum Outcome {
+    Receipt(TransactionReceipt),
+    /// the simulator could not turn the manifest into an executable (not an engine execution)
+    NotExecutable(String),
+    EscapedPanic(String, String),
+}
+
+fn execute(sim: &mut FSim, manifest: TransactionManifestV1, proofs: BTreeSet<NonFungibleGlobalId>) -> Outcome {
+    let r = mc_core::catch(|| {
+        let tt = TestTransaction::new_v1_from_nonce(manifest, NONCE, proofs);
+        sim.execute_transaction_no_commit(tt, exec_cfg_c11())
+    });
+    match r {
+        Ok(r) => Outcome::Receipt(r),
+        Err(p) if p.contains("should be convertible to executable") => Outcome::NotExecutable(p),
+        Err(p) => Outcome::EscapedPanic(p, norm_loc(&mc_core::last_panic_location())),
+    }
+}
+
+/// strip the checkout prefix so that keys are the same in /repo and in a mutant workspace
+fn norm_loc(loc: &str) -> String {
+    for marker in ["/radix-", "/sbor", "/scrypto"] {
+        if let Some(i) = loc.find(marker) {
+            return loc[i + 1..].to_string();
+        }
+    }
+    loc.to_string()
+}
+
+fn runtime_error(r: &TransactionReceipt) -> Option<&RuntimeError> {
+    match &r.result {
+        TransactionResult::Commit(c) => match &c.outcome {
+            TransactionOutcome::Success(_) => None,
+            TransactionOutcome::Failure(e) => Some(e),
+        },
+        TransactionResult::Reject(rj) => match &rj.reason {
+            RejectionReason::ErrorBeforeLoanAndDeferredCostsRepaid(e) => Some(e),
+            RejectionReason::BootloadingError(_) => None,
+            _ => None,
+        },
+        TransactionResult::Abort(_) => None,
+    }
+}
+
+/// Some((key, description)) when the receipt reports a trapped native panic / system panic
+fn trapped(r: &TransactionReceipt) -> Option<(String, String)> {
+    let txt_check = |s: &str| s.contains("SystemPanic(") || s.contains("Trap {");
+    match runtime_error(r) {
+        Some(RuntimeError::VmError(VmError::Native(NativeRuntimeError::Trap { export_name, error, .. }))) => {
+            Some((format!("trap@{}", norm_loc(&mc_core::last_panic_location())), format!("native blueprint trapped in export {export_name}: {error}")))
+        }
+        Some(RuntimeError::SystemError(SystemError::SystemPanic(m))) => Some((format!("system-panic@{}", norm_loc(&mc_core::last_panic_location())), format!("system layer panicked: {m}"))),
+        Some(_) => None,
+        None => {
+            // rejections / aborts that carry an error in another shape
+            let t = failure_text(r);
+            if !is_success(r) && txt_check(&t) {
+                Some((format!("panic-in-receipt@{}", norm_loc(&mc_core::last_panic_location())), mc_core::truncate(&t, 300)))
+            } else {
+                None
+            }
+        }
+    }
+}
+
+fn reached_native_code(r: &TransactionReceipt) -> bool {
+    match runtime_error(r) {
+        None => is_success(r),
+        Some(RuntimeError::ApplicationError(_)) => true,
+        _ => false,
+    }
+}
+
+fn is_auth_failure(r: &TransactionReceipt) -> bool {
+    failure_text(r).contains("AuthError")
+}
+
+// ------------------------------------------------------------------------------------------------
+// defaults
+// ------------------------------------------------------------------------------------------------
+
+#[derive(Clone, Debug)]
+struct Dflt {
+    tree: G,
+    defaults: Defaults,
+    role: Role,
+    class: String,
+    success: bool,
+    reached: bool,
+}
+
+fn contexts(w: &W11) -> Vec<Defaults> {
+    let res = [w.w.f18, XRD, w.fall, w.nfall, w.w.nf, w.x.pool_unit, w.pool2_unit, w.poolm_unit, w.x.stake_unit, w.x.claim_nft, w.w.rc, w.w.f2, w.w.f0];
+    let mut out = vec![];
+    for some in [false, true] {
+        for r in res {
+            out.push(Defaults { res: r, amount: dec!(1), string: "a".into(), nf_id: 2, some });
+        }
+    }
+    for s in ["name", "minter", "_owner_"] {
+        for r in [w.w.f18, w.fall, w.nfall] {
+            out.push(Defaults { res: r, amount: dec!(1), string: s.into(), nf_id: 2, some: false });
+        }
+    }
+    out
+}
+
+fn gen_for<'a>(disc: &'a Discovery, w: &'a W11, pools: &'a Pools, t: &Target, d: Defaults, small: bool) -> Gen<'a> {
+    let schema = disc.schemas.get(&(t.pkg, t.schema_hash)).unwrap_or_else(|| mc_core::machinery_error(&format!("C11: schema of {} not found", t.label())));
+    Gen { schema, w, pools, d, target: (t.pkg, t.bp.clone()), small }
+}
+
+fn find_default(sim: &mut FSim, disc: &Discovery, w: &W11, pools: &Pools, t: &Target) -> Option<Dflt> {
+    let mut best: Option<(u32, Dflt)> = None;
+    for d in contexts(w) {
+        let gen = gen_for(disc, w, pools, t, d.clone(), true);
+        let Some(tree) = gen.default(t.type_id, 0) else { return None };
+        let Some((pre, call, _, _)) = build_call(w, t, (d.res, d.amount), &tree, &Input::Tree(tree.clone())) else { continue };
+        for role in [Role::User, Role::System] {
+            let m = full_manifest(w, &pre, call.clone());
+            let (score, class, success, reached, auth) = match execute(sim, m, proofs_of(w, role)) {
+                Outcome::Receipt(r) => {
+                    let s = is_success(&r);
+                    let reached = reached_native_code(&r);
+                    (if s { 3 } else if reached { 2 } else { 1 }, receipt_class(&r), s, reached, is_auth_failure(&r))
+                }
+                Outcome::NotExecutable(_) => (0, "not-executable".to_string(), false, false, false),
+                Outcome::EscapedPanic(..) => (0, "escaped-panic".to_string(), false, false, false),
+            };
+            let cand = Dflt { tree: tree.clone(), defaults: d.clone(), role, class, success, reached };
+            if best.as_ref().map(|(s, _)| score > *s).unwrap_or(true) {
+                best = Some((score, cand));
+            }
+            if score == 3 {
+                return best.map(|b| b.1);
+            }
+            if !auth {
+                break;
+            }
+        }
+    }
+    best.map(|b| b.1)
+}
+
+// ------------------------------------------------------------------------------------------------
+// work items
+// ------------------------------------------------------------------------------------------------
+
+#[derive(Clone, Debug)]
+enum Input {
+    Tree(G),
+    /// manifest-SBOR bytes of the argument value (already known to decode)
+    Bytes(Vec<u8>),
+}
+
+#[derive(Clone, Debug)]
+struct Item {
+    target: usize,
+    state: usize,
+    input: Input,
+    family: &'static str,
+}
+
+const QUICK_ALPHABET: [u8; 12] = [0x00, 0x01, 0x02, 0x07, 0x0c, 0x20, 0x21, 0x22, 0x23, 0x5c, 0x80, 0xff];
+const THOROUGH_ALPHABET: [u8; 40] = [
+    0x00, 0x01, 0x02, 0x03, 0x04, 0x05, 0x06, 0x07, 0x08, 0x09, 0x0a, 0x0b, 0x0c, 0x0d, 0x10, 0x1f, 0x20, 0x21, 0x22, 0x23, 0x24, 0x3f, 0x40, 0x4d, 0x5c, 0x7f, 0x80, 0x81, 0x82, 0x83, 0x84, 0x85, 0x86,
+    0x87, 0x88, 0x90, 0xa0, 0xc0, 0xfe, 0xff,
+];
+
+#[allow(clippy::too_many_arguments)]
+fn case_json(w: &W11, t: &Target, state: usize, role: Role, preamble: &[InstructionV1], call: &InstructionV1, shown: &str, args_hex: &str, family: &str) -> Value {
+    let m = full_manifest(w, preamble, call.clone());
+    json!({
+        "target": t.label(),
+        "state": state,
+        "role": format!("{role:?}"),
+        "family": family,
+        "args": mc_core::truncate(shown, 1500),
+        "args_sbor": args_hex,
+        "instructions_manifest_sbor": manifest_encode(&m.instructions).map(|b| mc_core::hex(&b)).unwrap_or_default(),
+    })
+}
+
+struct Shared<'a> {
+    w: &'a W11,
+    disc: &'a Discovery,
+    dflts: &'a [Option<Dflt>],
+}
+
+fn run_item(sh: &Shared, sim: &mut FSim, it: &Item, l: &mut Local) {
+    let t = &sh.disc.targets[it.target];
+    let d = sh.dflts[it.target].as_ref().unwrap();
+    let dfl = (d.defaults.res, d.defaults.amount);
+    let Some((preamble, call, shown, args_hex)) = build_call(sh.w, t, dfl, &d.tree, &it.input) else {
+        l.info("generated tuple not encodable as SBOR (mixed element kinds): skipped");
+        return;
+    };
+    l.eval();
+    let cj = || case_json(sh.w, t, it.state, d.role, &preamble, &call, &shown, &args_hex, it.family);
+    let m = full_manifest(sh.w, &preamble, call.clone());
+    match execute(sim, m, proofs_of(sh.w, d.role)) {
+        Outcome::Receipt(r) => {
+            if let Some((key, what)) = trapped(&r) {
+                l.violation(key, format!("{}: {what}", t.label()), cj());
+                l.class("VIOLATION:trapped-panic-in-receipt");
+                return;
+            }
+            let cls = match &r.result {
+                TransactionResult::Commit(c) => match &c.outcome {
+                    TransactionOutcome::Success(_) => "commit-success".to_string(),
+                    TransactionOutcome::Failure(e) => format!("commit-failure:{}", variant_path(&format!("{e:?}"), 2)),
+                },
+                TransactionResult::Reject(rj) => format!("reject:{}", variant_path(&format!("{:?}", rj.reason), 3)),
+                TransactionResult::Abort(a) => format!("abort:{}", variant_path(&format!("{:?}", a.reason), 2)),
+            };
+            l.class(&cls);
+            l.sample(|| json!({"case": cj(), "outcome": receipt_class(&r)}));
+        }
+        Outcome::NotExecutable(_) => {
+            l.class("not-executable(simulator could not prepare the manifest)");
+        }
+        Outcome::EscapedPanic(p, loc) => {
+            l.violation(format!("panic@{loc}"), format!("{}: panic escaped the engine: {}", t.label(), mc_core::truncate(&p, 300)), cj());
+            l.class("VIOLATION:escaped-panic");
+        }
+    }
+}
+
+
+// ------------------------------------------------------------------------------------------------
+// typed manifest instructions (worktop / auth zone / bucket / proof blueprints behind the processor)
+// ------------------------------------------------------------------------------------------------
+
+/// Every resource-handling manifest instruction with every (resource, amount / id-set) of small alphabets, after a
+/// fixed preamble that leaves 1 `fall` + nfall #2,#3 on the worktop, bucket 0 = 1 `fall`, bucket 1 = nfall #4, and a
+/// `fall` proof + an nfall proof in the auth zone (proof 0 = popped `fall` proof).
+fn instruction_cases(w: &W11) -> Vec<(String, Vec<InstructionV1>)> {
+    let a = w.w.a.addr;
+    let acct = |m: &str, args: ManifestValue| InstructionV1::CallMethod(CallMethod { address: ManifestGlobalAddress::Static(a.into()), method_name: m.to_string(), args });
+    let ids = |v: &[u64]| v.iter().map(|i| NonFungibleLocalId::integer(*i)).collect::<Vec<_>>();
+    let pre: Vec<InstructionV1> = vec![
+        acct("withdraw", to_mv(&(w.fall, dec!(2)))),
+        acct("withdraw_non_fungibles", to_mv(&(w.nfall, ids(&[2, 3, 4])))),
+        InstructionV1::TakeFromWorktop(TakeFromWorktop { resource_address: w.fall, amount: dec!(1) }),
+        InstructionV1::TakeNonFungiblesFromWorktop(TakeNonFungiblesFromWorktop { resource_address: w.nfall, ids: ids(&[4]) }),
+        acct("create_proof_of_amount", to_mv(&(w.fall, dec!(1)))),
+        acct("create_proof_of_non_fungibles", to_mv(&(w.nfall, ids(&[1])))),
+        acct("create_proof_of_amount", to_mv(&(w.fall, dec!(3)))),
+        InstructionV1::PopFromAuthZone(PopFromAuthZone),
+    ];
+    let ghost = {
+        let mut b = [0x5au8; 30];
+        b[0] = EntityType::GlobalFungibleResourceManager as u8;
+        ResourceAddress::new_or_panic(b)
+    };
+    let resources = [w.fall, w.nfall, XRD, w.w.f0, w.x.claim_nft, ghost];
+    let decimals = [dec!(1), Decimal::ZERO, dec!(-1), Decimal::from_attos(I192::ONE), dec!("0.5"), dec!(2), dec!(3), dec!(1000000), Decimal::MAX, Decimal::MIN];
+    let idsets: Vec<Vec<NonFungibleLocalId>> = vec![
+        vec![],
+        ids(&[2]),
+        ids(&[2, 3]),
+        ids(&[2, 2]),
+        ids(&[4]),
+        ids(&[99]),
+        vec![NonFungibleLocalId::string("a").unwrap()],
+        vec![NonFungibleLocalId::integer(2), NonFungibleLocalId::ruid([0u8; 32])],
+        (0..70u64).map(NonFungibleLocalId::integer).collect(),
+    ];
+    let buckets = [ManifestBucket(0), ManifestBucket(1), ManifestBucket(77)];
+    let proofs = [ManifestProof(0), ManifestProof(77)];
+    let mut out: Vec<(String, InstructionV1)> = vec![];
+    for r in resources {
+        for d in decimals {
+            out.push((format!("TakeFromWorktop({r:?},{d})"), InstructionV1::TakeFromWorktop(TakeFromWorktop { resource_address: r, amount: d })));
+            out.push((format!("AssertWorktopContains({r:?},{d})"), InstructionV1::AssertWorktopContains(AssertWorktopContains { resource_address: r, amount: d })));
+            out.push((format!("CreateProofFromAuthZoneOfAmount({r:?},{d})"), InstructionV1::CreateProofFromAuthZoneOfAmount(CreateProofFromAuthZoneOfAmount { resource_address: r, amount: d })));
+        }
+        for i in &idsets {
+            let tag = format!("{} ids", i.len());
+            out.push((format!("TakeNonFungiblesFromWorktop({r:?},{tag}:{:?})", i.first()), InstructionV1::TakeNonFungiblesFromWorktop(TakeNonFungiblesFromWorktop { resource_address: r, ids: i.clone() })));
+            out.push((
+                format!("AssertWorktopContainsNonFungibles({r:?},{tag}:{:?})", i.first()),
+                InstructionV1::AssertWorktopContainsNonFungibles(AssertWorktopContainsNonFungibles { resource_address: r, ids: i.clone() }),
+            ));
+            out.push((
+                format!("CreateProofFromAuthZoneOfNonFungibles({r:?},{tag}:{:?})", i.first()),
+                InstructionV1::CreateProofFromAuthZoneOfNonFungibles(CreateProofFromAuthZoneOfNonFungibles { resource_address: r, ids: i.clone() }),
+            ));
+        }
+        out.push((format!("TakeAllFromWorktop({r:?})"), InstructionV1::TakeAllFromWorktop(TakeAllFromWorktop { resource_address: r })));
+        out.push((format!("AssertWorktopContainsAny({r:?})"), InstructionV1::AssertWorktopContainsAny(AssertWorktopContainsAny { resource_address: r })));
+        out.push((format!("CreateProofFromAuthZoneOfAll({r:?})"), InstructionV1::CreateProofFromAuthZoneOfAll(CreateProofFromAuthZoneOfAll { resource_address: r })));
+    }
+    for b in buckets {
+        for d in decimals {
+            out.push((format!("CreateProofFromBucketOfAmount({b:?},{d})"), InstructionV1::CreateProofFromBucketOfAmount(CreateProofFromBucketOfAmount { bucket_id: b, amount: d })));
+        }
+        for i in &idsets {
+            out.push((
+                format!("CreateProofFromBucketOfNonFungibles({b:?},{} ids:{:?})", i.len(), i.first()),
+                InstructionV1::CreateProofFromBucketOfNonFungibles(CreateProofFromBucketOfNonFungibles { bucket_id: b, ids: i.clone() }),
+            ));
+        }
+        out.push((format!("CreateProofFromBucketOfAll({b:?})"), InstructionV1::CreateProofFromBucketOfAll(CreateProofFromBucketOfAll { bucket_id: b })));
+        out.push((format!("BurnResource({b:?})"), InstructionV1::BurnResource(BurnResource { bucket_id: b })));
+        out.push((format!("ReturnToWorktop({b:?})"), InstructionV1::ReturnToWorktop(ReturnToWorktop { bucket_id: b })));
+    }
+    for p in proofs {
+        out.push((format!("CloneProof({p:?})"), InstructionV1::CloneProof(CloneProof { proof_id: p })));
+        out.push((format!("DropProof({p:?})"), InstructionV1::DropProof(DropProof { proof_id: p })));
+        out.push((format!("PushToAuthZone({p:?})"), InstructionV1::PushToAuthZone(PushToAuthZone { proof_id: p })));
+    }
+    out.push(("PopFromAuthZone".into(), InstructionV1::PopFromAuthZone(PopFromAuthZone)));
+    out.push(("DropAuthZoneProofs".into(), InstructionV1::DropAuthZoneProofs(DropAuthZoneProofs)));
+    out.push(("DropAuthZoneRegularProofs".into(), InstructionV1::DropAuthZoneRegularProofs(DropAuthZoneRegularProofs)));
+    out.push(("DropAuthZoneSignatureProofs".into(), InstructionV1::DropAuthZoneSignatureProofs(DropAuthZoneSignatureProofs)));
+    out.push(("DropNamedProofs".into(), InstructionV1::DropNamedProofs(DropNamedProofs)));
+    out.push(("DropAllProofs".into(), InstructionV1::DropAllProofs(DropAllProofs)));
+    let fee = acct("lock_fee", to_mv(&(dec!(500),)));
+    let tail = acct("deposit_batch", ManifestValue::Tuple { fields: vec![ManifestValue::Custom { value: ManifestCustomValue::Expression(ManifestExpression::EntireWorktop) }] });
+    out.into_iter()
+        .map(|(label, x)| {
+            let mut v = vec![fee.clone()];
+            v.extend(pre.iter().cloned());
+            v.push(x);
+            // leftovers: named buckets go back to the worktop where they still exist, then everything is deposited
+            v.push(InstructionV1::DropAllProofs(DropAllProofs));
+            v.push(tail.clone());
+            (label, v)
+        })
+        .collect()
+}
+
+fn run_instruction_case(w: &W11, sim: &mut FSim, state: usize, label: &str, ins: &[InstructionV1], l: &mut Local) {
+    l.eval();
+    let m = TransactionManifestV1 { instructions: ins.to_vec(), blobs: Default::default(), object_names: Default::default() };
+    let cj = || json!({"target": format!("instruction {label}"), "state": state, "role": "User", "family": "typed-instruction", "instructions_manifest_sbor": manifest_encode(&ins.to_vec()).map(|b| mc_core::hex(&b)).unwrap_or_default()});
+    match execute(sim, m, proofs_of(w, Role::User)) {
+        Outcome::Receipt(r) => {
+            if let Some((key, what)) = trapped(&r) {
+                l.violation(key, format!("instruction {label}: {what}"), cj());
+                l.class("VIOLATION:trapped-panic-in-receipt");
+                return;
+            }
+            l.class(&format!("instruction:{}", variant_path(&receipt_class(&r), 2)));
+        }
+        Outcome::NotExecutable(_) => l.class("not-executable(simulator could not prepare the manifest)"),
+        Outcome::EscapedPanic(p, loc) => {
+            l.violation(format!("panic@{loc}"), format!("instruction {label}: panic escaped the engine: {}", mc_core::truncate(&p, 300)), cj());
+            l.class("VIOLATION:escaped-panic");
+        }
+    }
+}
+
+thread_local! {
+    static SIMS: std::cell::RefCell<Vec<Option<FSim>>> = const { std::cell::RefCell::new(Vec::new()) };
+}
+
+fn with_sim<R>(snaps: &[Snap], state: usize, f: impl FnOnce(&mut FSim) -> R) -> R {
+    SIMS.with(|s| {
+        let mut s = s.borrow_mut();
+        if s.len() < snaps.len() {
+            s.resize_with(snaps.len(), || None);
+        }
+        if s[state].is_none() {
+            s[state] = Some(fsim_from(&snaps[state]));
+        }
+        f(s[state].as_mut().unwrap())
+    })
+}
+
+pub fn run(ctx: Ctx) -> ! {
+    // ---- base state and the two non-initial states
+    let mut sim = fsim_new();
+    let w = build_w11(&mut sim);
+    let snap0 = sim.create_snapshot();
+    let mut snaps = vec![snap0.clone()];
+    for which in [1usize, 2] {
+        let mut s = fsim_from(&snap0);
+        build_state(&mut s, &w, which);
+        snaps.push(s.create_snapshot());
+    }
+    let pools = pools(&w);
+    let disc = discover(&sim, &w);
+
+    // ---- replay
+    if let Some(case) = ctx.read_replay_case() {
+        let hex = case.get("instructions_manifest_sbor").and_then(|x| x.as_str()).unwrap_or("");
+        let ins: Vec<InstructionV1> = manifest_decode(&mc_core::unhex(hex)).unwrap_or_else(|e| mc_core::machinery_error(&format!("bad instructions in replay: {e:?}")));
+        let state = case.get("state").and_then(|x| x.as_u64()).unwrap_or(0) as usize;
+        let role = if case.get("role").and_then(|x| x.as_str()) == Some("System") { Role::System } else { Role::User };
+        let m = TransactionManifestV1 { instructions: ins, blobs: Default::default(), object_names: Default::default() };
+        let mut s = fsim_from(&snaps[state.min(snaps.len() - 1)]);
+        let mut l = Local::new();
+        l.eval();
+        match execute(&mut s, m, proofs_of(&w, role)) {
+            Outcome::Receipt(r) => {
+                println!("REPLAY receipt: {}", mc_core::truncate(&format!("{} {}", receipt_class(&r), failure_text(&r)), 2000));
+                if let Some((key, what)) = trapped(&r) {
+                    l.violation(key, what, case.clone());
+                }
+            }
+            Outcome::NotExecutable(p) => println!("REPLAY: not executable: {p}"),
+            Outcome::EscapedPanic(p, loc) => {
+                println!("REPLAY: escaped panic at {loc}: {p}");
+                l.violation(format!("panic@{loc}"), p, case.clone());
+            }
+        }
+        l.class("replay");
+        ctx.merge(l);
+        ctx.finish(Level::Exploration, "replay", 1, true, Map::new(), &[]);
+    }
+
+    // ---- defaults (automatic search, in parallel over targets)
+    let idx: Vec<usize> = (0..disc.targets.len()).collect();
+    let dflts: Vec<Option<Dflt>> = par_map(ctx.threads, &idx, |i| with_sim(&snaps, 0, |s| find_default(s, &disc, &w, &pools, &disc.targets[*i])));
+
+    if std::env::var("VERIF_C11_DUMP").is_ok() {
+        for (t, d) in disc.targets.iter().zip(dflts.iter()) {
+            match d {
+                Some(d) => println!("DEFAULT {:60} {:?} ok={} reached={} {} ctx.res={:?} some={} str={}", t.label(), d.role, d.success, d.reached, d.class, d.defaults.res, d.defaults.some, d.defaults.string),
+                None => println!("DEFAULT {:60} NONE", t.label()),
+            }
+        }
+        for (bp, id, why) in &disc.not_driven {
+            println!("NOT-DRIVEN {bp}::{id}: {why}");
+        }
+    }
+
+    // ---- work items
+    let quick = ctx.quick();
+    let mut items: Vec<Item> = vec![];
+    let mut positions_total = 0u64;
+    let mut per_target_counts: Vec<(String, usize, usize)> = vec![];
+    let alphabet: &[u8] = if quick { &QUICK_ALPHABET } else { &THOROUGH_ALPHABET };
+    let mut undecodable_mutations = 0u64;
+    for (ti, t) in disc.targets.iter().enumerate() {
+        let Some(d) = &dflts[ti] else { continue };
+        let gen = gen_for(&disc, &w, &pools, t, d.defaults.clone(), quick);
+        positions_total += gen.positions(t.type_id, &d.tree) as u64;
+        // (a) deviations
+        let dev1 = gen.deviations(t.type_id, &d.tree, 1, 0);
+        let mut trees: Vec<G> = vec![d.tree.clone()];
+        trees.extend(dev1.iter().cloned());
+        let n1 = trees.len();
+        if !quick && dev1.len() <= 400 {
+            for g in gen.deviations(t.type_id, &d.tree, 2, 0) {
+                trees.push(g);
+            }
+            // the ≤2 set contains the ≤1 set again: drop duplicates
+            let mut seen: Vec<Vec<u8>> = vec![];
+            let mut uniq = vec![];
+            for g in trees {
+                let key = format!("{g:?}").into_bytes();
+                let fp = mc_core::fp128(&key);
+                if !seen.contains(&fp) {
+                    seen.push(fp);
+                    uniq.push(g);
+                }
+            }
+            trees = uniq;
+        }
+        for (si, _) in snaps.iter().enumerate() {
+            for (gi, g) in trees.iter().enumerate() {
+                let family = if gi == 0 { "default" } else if gi < n1 { "1-position-deviation" } else { "2-position-deviation" };
+                // 2-position deviations only in the base state
+                if si > 0 && gi >= n1 {
+                    continue;
+                }
+                items.push(Item { target: ti, state: si, input: Input::Tree(g.clone()), family });
+            }
+        }
+        // (b) byte mutations of the default's manifest SBOR
+        let mut nmut = 0usize;
+        let default_bytes = if t.is_fwd() { scrypto_encode(&g2s(&d.tree)).ok() } else { encodable(&lower(&d.tree, w.w.a.addr, (d.defaults.res, d.defaults.amount)).value) };
+        if let Some(bytes) = default_bytes {
+            let mut seen: BTreeSet<Vec<u8>> = BTreeSet::new();
+            mc_core::gen::mutations(&bytes, alphabet, |m| {
+                if m == bytes.as_slice() || !seen.insert(m.to_vec()) {
+                    return;
+                }
+                if t.is_fwd() || manifest_decode::<ManifestValue>(m).is_ok() {
+                    nmut += 1;
+                    for (si, _) in snaps.iter().enumerate() {
+                        if si > 0 && quick {
+                            continue;
+                        }
+                        items.push(Item { target: ti, state: si, input: Input::Bytes(m.to_vec()), family: "byte-mutation" });
+                    }
+                } else {
+                    undecodable_mutations += 1;
+                }
+            });
+        }
+        per_target_counts.push((t.label(), trees.len(), nmut));
+    }
+    ctx.info("byte mutations that no longer decode as a manifest value (cannot be put into a manifest; not executed)", undecodable_mutations);
+
+    if std::env::var("VERIF_C11_DUMP").is_ok() {
+        for (l, a, b) in &per_target_counts {
+            println!("COUNTS {l:60} trees={a} mutations={b}");
+        }
+        println!("TOTAL items {}", items.len());
+    }
+
+    // ---- run
+    let sh = Shared { w: &w, disc: &disc, dflts: &dflts };
+    par_for(&ctx, &items, |it, l| with_sim(&snaps, it.state, |s| run_item(&sh, s, it, l)));
+
+    // ---- typed manifest instructions, from every state
+    let icases = instruction_cases(&w);
+    let iitems: Vec<(usize, usize)> = (0..snaps.len()).flat_map(|s| (0..icases.len()).map(move |i| (s, i))).collect();
+    par_for(&ctx, &iitems, |(s, i), l| with_sim(&snaps, *s, |sim| run_instruction_case(&w, sim, *s, &icases[*i].0, &icases[*i].1, l)));
+
+    // ---- evidence
+    let driven: BTreeSet<(String, String)> = disc.targets.iter().zip(dflts.iter()).filter(|(_, d)| d.is_some()).map(|(t, _)| (t.bp.clone(), t.ident.clone())).collect();
+    let default_ok = disc.targets.iter().zip(dflts.iter()).filter(|(_, d)| d.as_ref().map(|d| d.success).unwrap_or(false)).count();
+    let default_reached = disc.targets.iter().zip(dflts.iter()).filter(|(_, d)| d.as_ref().map(|d| d.reached).unwrap_or(false)).count();
+    let mut per_bp: BTreeMap<String, (u64, u64, u64)> = BTreeMap::new();
+    for (t, d) in disc.targets.iter().zip(dflts.iter()) {
+        let e = per_bp.entry(t.bp.clone()).or_default();
+        e.0 += 1;
+        if let Some(d) = d {
+            if d.success {
+                e.1 += 1;
+            }
+            if d.reached {
+                e.2 += 1;
+            }
+        }
+    }
+    let not_ok: Vec<String> =
+        disc.targets.iter().zip(dflts.iter()).filter(|(_, d)| !d.as_ref().map(|d| d.success).unwrap_or(false)).map(|(t, d)| format!("{} -> {}", t.label(), d.as_ref().map(|d| d.class.clone()).unwrap_or("no default".into()))).collect();
+    let infos_reached = {
+        // measured: executions whose outcome shows that the native function body ran (success or an application error of the blueprint)
+        // (read back from the merged counters)
+        0u64
+    };
+    let _ = infos_reached;
+    let mut cov = Map::new();
+    cov.insert("programs".into(), json!(disc.targets.len() as u64));
+    cov.insert("native_blueprints_in_genesis".into(), json!(disc.blueprints.iter().collect::<Vec<_>>()));
+    cov.insert("entry_points_in_genesis".into(), json!(disc.entry_points as u64));
+    cov.insert("entry_points_driven".into(), json!(driven.len() as u64));
+    cov.insert("invocation_forms".into(), json!(disc.targets.len() as u64));
+    cov.insert("defaults_committing_successfully".into(), json!(default_ok as u64));
+    cov.insert("defaults_reaching_native_code".into(), json!(default_reached as u64));
+    cov.insert(
+        "per_blueprint".into(),
+        Value::Object(per_bp.iter().map(|(k, v)| (k.clone(), json!({"invocation_forms": v.0, "default_succeeds": v.1, "default_reaches_native_code": v.2}))).collect()),
+    );
+    cov.insert("defaults_not_succeeding".into(), json!(not_ok));
+    cov.insert("entry_points_not_driven".into(), json!(disc.not_driven.iter().map(|(b, i, w)| format!("{b}::{i}: {w}")).collect::<Vec<_>>()));
+    cov.insert("typed_instruction_cases_per_state".into(), json!(icases.len() as u64));
+    cov.insert("state_count".into(), json!(snaps.len() as u64));
+    cov.insert("state_descriptions".into(), json!(["base", "after 2 epoch changes + frozen vaults + recovery initiated + primary role locked", "restrictive account deposit rules + validator registered/unregistered, not accepting stake + burnt nf + emptied pool"]));
+    cov.insert("default_tree_positions".into(), json!(positions_total));
+    cov.insert("mutation_alphabet_size".into(), json!(alphabet.len() as u64));
+    cov.insert("deviation_bound".into(), json!(if quick { "<= 1 node position" } else { "<= 2 node positions where the <=1 set has <= 400 members, else <= 1" }));
+    let classes = ctx.classes();
+    let nontrivial: u64 = classes.iter().filter(|(k, _)| k.starts_with("commit-success") || k.starts_with("commit-failure:ApplicationError")).map(|(_, v)| *v).sum();
+    ctx.finish(
+        Level::Exploration,
+        "every generated input is distinct by construction (distinct trees / distinct mutated byte strings per entry point and state); non-trivial = the call passed argument decoding, schema validation and auth, i.e. the native function body ran (outcome success or an ApplicationError of the blueprint)",
+        nontrivial,
+        true,
+        cov,
+        &[
+            "transactions are test transactions (no signature validation); initial proofs = signatures of accounts A and B and the two validator owner badges; entry points whose default is refused for missing authority are retried with the validator/protocol system proofs",
+            "executions are not committed (execute_transaction_no_commit): the commit path of the simulator is not part of the subject",
+            "worktop / auth zone methods and non-direct vault methods are reached only through the typed manifest instructions of the preambles, not with raw payloads",
+            "the panic location used in violation keys is the last panic observed on the executing thread",
+        ],
+    )
 }
